@@ -763,6 +763,12 @@ class XMLConverter(PDFConverter[AnyIO]):
             text = self.CONTROL.sub("", text)
         self.write(enc(text))
 
+    def enc_name(self, name: str) -> str:
+        """Escape a font or figure name for use as an attribute value."""
+        if self.stripcontrol and isinstance(name, str):
+            name = self.CONTROL.sub("", name)
+        return enc(name)
+
     def receive_layout(self, ltpage: LTPage) -> None:
         def show_group(item: LTItem) -> None:
             if isinstance(item, LTTextBox):
@@ -814,7 +820,7 @@ class XMLConverter(PDFConverter[AnyIO]):
                 self.write(s)
             elif isinstance(item, LTFigure):
                 s = '<figure name="%s" bbox="%s">\n' % (
-                    enc(item.name),
+                    self.enc_name(item.name),
                     bbox2str(item.bbox),
                 )
                 self.write(s)
@@ -844,7 +850,7 @@ class XMLConverter(PDFConverter[AnyIO]):
                     '<text font="%s" bbox="%s" colourspace="%s" '
                     'ncolour="%s" size="%.3f">'
                     % (
-                        enc(item.fontname),
+                        self.enc_name(item.fontname),
                         bbox2str(item.bbox),
                         item.ncs.name,
                         item.graphicstate.ncolor,
